@@ -3,10 +3,12 @@ package main
 import (
 	"bytes"
 	"encoding/binary"
+	"io"
 	"math"
 	"math/rand"
 	"runtime"
 	"strings"
+	"testing/iotest"
 
 	"github.com/ctessum/geom"
 	"github.com/ctessum/geom/encoding/hex"
@@ -15,8 +17,9 @@ import (
 
 // C05 / C07 (WKB half): encode / decode at the level of bytes.  Coordinates travel as the 8 big-endian
 // bytes of their IEEE-754 bit pattern, so the specification compares bit patterns without knowing floats.
-//   {"kind":"enc","g":tree,"bo":0|1}            real encoder output (bytes, hex text) for a geometry
-//   {"kind":"dec","bytes":[...]}                real decoder on (possibly hostile) bytes, with allocation metering
+//
+//	{"kind":"enc","g":tree,"bo":0|1}            real encoder output (bytes, hex text) for a geometry
+//	{"kind":"dec","bytes":[...]}                real decoder on (possibly hostile) bytes, with allocation metering
 var c05PrevB, c05PrevBCopy []byte
 var c05PrevH, c05PrevHCopy string
 
@@ -233,6 +236,24 @@ func runC05(c map[string]interface{}) []Event {
 				}
 				e["g2"] = encGeom(g2, bitsEnc)
 			})
+		}
+		// the same bytes through wkb.Read from readers that hand out less than they are asked for (one byte at a time, half of
+		// each request): a Reader is allowed to do that, and the decoded geometry must not depend on it
+		for _, v := range []struct {
+			k  string
+			mk func() io.Reader
+		}{{"gone", func() io.Reader { return iotest.OneByteReader(bytes.NewReader(b)) }},
+			{"ghalf", func() io.Reader { return iotest.HalfReader(bytes.NewReader(b)) }}} {
+			var sg geom.Geom
+			var serr error
+			o := safely(func() { sg, serr = wkb.Read(v.mk()) })
+			if o != "ok" {
+				e[v.k] = map[string]interface{}{"t": o, "m": []interface{}{}}
+			} else if serr != nil || sg == nil {
+				e[v.k] = map[string]interface{}{"t": "err", "m": []interface{}{}}
+			} else {
+				e[v.k] = encGeom(sg, bitsEnc)
+			}
 		}
 		// the hex codec is the same bytes in hexadecimal, either case on input
 		hx := make([]byte, 0, 2*len(b))
